@@ -46,18 +46,18 @@ class ForeverBreakWriteHandler(AbstractWriteHandler):
     def write_content(self) -> Vertex | None:
         """Print a break and end"""
         logger.debug("Handling a break_loop; (%s)...", self.start_vertex["op"])
+        exits = self.start_vertex.out_edges()
+        if len(exits) == 1 and len(self.decompiler.forever_start_handler_stack) < 1:
+            # We REALLY shouldn't land here, if we are outside of a loop, but sometimes loop detection still
+            # raises some "false positives" and builds loops that have break statements reachable from outside
+            # the loop. Nothing must have been written yet: the jump written instead stands for this operation.
+            logger.warning("While decompiling, tried to generate break_loop; outside loop!")
+            raise FallbackToJump()
         if not self.start_vertex["op"].synthetic:
             # An inserted break is not an operation of its own, it must not replace the entry of the operation before it.
             self.decompiler.source_map_add_opcode(self.start_vertex["op"].offset)
         self.decompiler.write_stmnt("break_loop;")
-        exits = self.start_vertex.out_edges()
         if len(exits) == 1:
-            if len(self.decompiler.forever_start_handler_stack) < 1:
-                # We REALLY shouldn't land here, if we are outside of a loop, but sometimes loop detection still
-                # raises some "false positives" and builds loops that have break statements reachable from outside
-                # the loop
-                logger.warning("While decompiling, tried to generate break_loop; outside loop!")
-                raise FallbackToJump()
             # Make sure the forever start block is aware of the next vertex!
             self.decompiler.forever_start_handler_stack[-1].set_vertex_after(exits[0].target_vertex)
             return None
